@@ -47,6 +47,7 @@ impl Call {
             .s("entry", &format!("{:?}", self.entry))
             .s("src", &clip(&self.src, 400))
             .s("path", &self.path.as_ref().map(|p| p.to_string_lossy().to_string()).unwrap_or_default())
+            .s("include_paths", &format!("{:?}", self.include_paths))
             .done()
     }
 }
@@ -192,4 +193,14 @@ pub const PROBES: &[&str] = &[
     "`define begin_keywords 1\n",
     "module m; logic define, include, undef, timescale; endmodule",
     "`begin_keywords \"1364-2001\"\nmodule m; wire logic; endmodule\n`end_keywords\nmodule n; wire logic; endmodule\n",
+];
+
+/// texts whose result depends on which file an include name resolves to (C07 gives the directories)
+pub const INCLUDERS: &[&str] = &[
+    "`include \"inc.svh\"\nmodule m; wire [`W-1:0] x; endmodule\n",
+    "`include \"inc.svh\"\n`ifdef FROM_B\nmodule b; endmodule\n`else\nmodule a; endmodule\n`endif\n",
+    "`include <inc.svh>\n`ifdef FROM_INC\nmodule i; endmodule\n`endif\n",
+    "`include \"only_a.svh\"\n`ifdef ONLY_A\nmodule m; endmodule\n`endif\n",
+    "module m;\n`include \"only_b.svh\"\nendmodule\n",
+    "`define N \"inc.svh\"\n`include `N\nmodule m; wire [`W:0] y; endmodule\n",
 ];
